@@ -280,6 +280,10 @@ func ConvertExtendedSpatialIDsToQuadkeysAndVerticalIDs(extendedSpatialIDs []stri
 		quadkeies := []int64{}
 		// 拡張空間IDを水平方向と垂直方向に分割する
 		indexes := strings.Split(spatialID, "/")
+		if len(indexes) != 5 {
+			// 拡張空間IDの成分数が5つでない場合はフォーマット不正
+			return []*object.FromExtendedSpatialIDToQuadkeyAndVerticalID{}, errors.NewSpatialIdError(errors.InputValueErrorCode, "")
+		}
 		indexesInt := []int64{}
 		for _, index := range indexes {
 			value, e := strconv.ParseInt(index, 10, 64)
